@@ -7,6 +7,7 @@ import (
 	"os"
 	"path/filepath"
 	"testing"
+	"time"
 
 	wt "github.com/hnakamur/whispertool"
 	"github.com/hnakamur/whispertool/cmd"
@@ -20,6 +21,8 @@ type C20Case struct {
 	Max      int    `json:"max"`
 	Fill     bool   `json:"fill"`
 	Existing string `json:"existing"` // "" | "garbage" | "whisper"
+	// Skew: seconds by which the library's own clock (whispertool.Now) runs ahead of the command's
+	Skew int64 `json:"skew"`
 }
 
 func runC20(c C20Case, ev *Evid) (fs []Finding) {
@@ -42,7 +45,9 @@ func runC20(c C20Case, ev *Evid) (fs []Finding) {
 		before, _ = os.ReadFile(path)
 	}
 	gc := &cmd.GenerateCommand{Dest: path, Perm: 0644, AggregationMethod: wt.AggregationMethod(c.L.Method), XFilesFactor: c.L.XFF, ArchiveInfoList: wtArchives(c.L), RandMax: c.Max, Fill: c.Fill, TextOut: ""}
+	libClockSkew = time.Duration(c.Skew) * time.Second
 	err, pm := runCommand(c.Now, gc)
+	libClockSkew = time.Second
 	desc := fmt.Sprintf("generate now=%d layout=%s max=%d fill=%v existing=%q", c.Now, c.L, c.Max, c.Fill, c.Existing)
 	if pm != "" {
 		add("generate-panic", "%s: panicked: %s", desc, pm)
@@ -162,7 +167,7 @@ func runC20(c C20Case, ev *Evid) (fs []Finding) {
 func TestC20(t *testing.T) {
 	RunProperty(t, Property[C20Case]{
 		ID: "C20",
-		Rule: "rapid-generated (layout of 1-3 archives, method, xff) x maximum in {0, 1, 7, 100, 10^6} x fill on/off x generation instant (aligned to all, some or no archive steps) x destination absent / existing garbage / existing whisper file; generate run at a controlled clock. Validity oracle (the values are random): existing destination => error and bytes unchanged; else header bytes == specification encoding of the request; without fill every slot is all-zero; with fill every slot of every archive's (now-retention, now] as fetched at now is a non-NaN integer in [0, max x step_a/step_0] and every coarser slot whose finer slots are all retained equals their (exact) sum. Non-trivial: fill with >=2 archives and >=1 fully covered coarser slot checked. Distinct = hash of the case.",
+		Rule: "rapid-generated (layout of 1-3 archives, method, xff) x maximum in {0, 1, 7, 100, 10^6} x fill on/off x generation instant (aligned to all, some or no archive steps) x destination absent / existing garbage / existing whisper file x skew of the library's own clock (whispertool.Now runs 0-61 s ahead of the command's clock, modelling a tick between two readings); generate run at a controlled clock. Validity oracle (the values are random): existing destination => error and bytes unchanged; else header bytes == specification encoding of the request; without fill every slot is all-zero; with fill every slot of every archive's (now-retention, now] as fetched at now is a non-NaN integer in [0, max x step_a/step_0] and every coarser slot whose finer slots are all retained equals their (exact) sum. Non-trivial: fill with >=2 archives and >=1 fully covered coarser slot checked. Distinct = hash of the case.",
 		Assumptions: []string{"the generator's own RNG is crypto-seeded: the verdict is deterministic only because it is a validity predicate"},
 		Gen: func(t *rapid.T) C20Case {
 			l := genCLILayout(t)
@@ -176,6 +181,7 @@ func TestC20(t *testing.T) {
 				now = alignDown(now, l.Archives[len(l.Archives)-1].Step) + l.Archives[len(l.Archives)-1].Step - 1
 			}
 			c := C20Case{Now: now, L: l, Max: rapid.SampledFrom([]int{0, 1, 7, 100, 100, 1000000}).Draw(t, "max"), Fill: rapid.IntRange(0, 4).Draw(t, "fill") > 0}
+			c.Skew = rapid.SampledFrom([]int64{0, 1, 1, l.Archives[0].Step, l.Archives[len(l.Archives)-1].Step, 61}).Draw(t, "skew")
 			if rapid.IntRange(0, 7).Draw(t, "existing") == 0 {
 				c.Existing = rapid.SampledFrom([]string{"garbage", "whisper"}).Draw(t, "existingKind")
 			}
